@@ -8,6 +8,7 @@
 
 #include "cntgs/detail/typeTraits.hpp"
 
+#include <deque>
 #include <iterator>
 #include <version>
 
@@ -41,8 +42,24 @@ constexpr auto operator_arrow_produces_pointer_to_iterator_reference_type() noex
     }
 }
 
+// Random access iterators that pass the checks below although their elements are not stored at increasing addresses.
+template <class I>
+inline constexpr bool IS_REVERSE_ITERATOR = false;
+
+template <class I>
+inline constexpr bool IS_REVERSE_ITERATOR<std::reverse_iterator<I>> = true;
+
+template <class I, class = void>
+inline constexpr bool IS_DEQUE_ITERATOR = false;
+
+template <class I>
+inline constexpr bool IS_DEQUE_ITERATOR<I, std::void_t<typename std::deque<typename std::iterator_traits<I>::value_type>::iterator>> =
+    std::is_same_v<I, typename std::deque<typename std::iterator_traits<I>::value_type>::iterator> ||
+    std::is_same_v<I, typename std::deque<typename std::iterator_traits<I>::value_type>::const_iterator>;
+
 template <class I>
 inline constexpr bool CONTIGUOUS_ITERATOR_V =
+    !detail::IS_REVERSE_ITERATOR<I> && !detail::IS_DEQUE_ITERATOR<I> &&
     detail::IS_DERIVED_FROM<typename std::iterator_traits<I>::iterator_category, std::random_access_iterator_tag> &&
     std::is_lvalue_reference_v<typename std::iterator_traits<I>::reference> &&
     std::is_same_v<typename std::iterator_traits<I>::value_type,
